@@ -85,8 +85,9 @@ let run_case (case : string) : string =
   let fin = Buffer.create 64 in
   while List.exists (fun th -> not (is_done th)) !s.c_threads && !rounds < 50 do
     incr rounds;
-    List.iteri (fun t th ->
-        if not (is_done th) && not (List.nth !s.c_threads t).t_waiting then
+    List.iteri (fun t _ ->
+        let th = List.nth !s.c_threads t in
+        if not (is_done th) && not th.t_waiting then
           Buffer.add_string fin ((if Buffer.length fin > 0 then "," else "") ^ step_text t)) !s.c_threads
   done;
   Buffer.add_string buf (" fin=" ^ Buffer.contents fin);
